@@ -266,14 +266,14 @@ def chain(rng, nlayers, labels, root='map', nulls=True, hostile=0.15, fold=None)
 FEATURES = ['merge-map', 'merge-map-deep', 'merge-str', 'replace-map', 'replace-str', 'merge-list', 'merge-listpath', 'cross-merge', 'cross-replace',
             'interp', 'env', 'encode', 'encode-value', 'decode', 'repeat-doc', 'repeat-doc-named', 'repeat-doc-count-ref', 'repeat-list', 'repeat-map', 'output-true',
             'output-false', 'template-doc', 'nested-merge-in-target', 'list-entry-merge-map', 'list-in-list-merge-map', 'merge-host-empty-containers',
-            'null-values', 'cross-merge-whole-target', 'cross-list-merge']
+            'null-values', 'cross-merge-whole-target', 'cross-list-merge', 'cross-list-replace']
 
 
 def evaldoc(rng, idx, ndocs, labels, nfeat=None):
     """A map-rooted document exercising a random subset of the evaluation directives."""
     d = {'name': 'd%d' % idx, 't': {'x': rng.choice([1, 2, 's']), 'y': [1, 2], 'z': {'w': True, 'v': rng.choice([1.5, 'q'])}}}
     feats = rng.sample(FEATURES, nfeat or rng.randint(1, 5))
-    if rng.random() < 0.3:
+    if rng.random() < 0.4:
         # the shared target holds a list whose entries carry references of their own (resolved wherever the target is pulled in)
         d['t']['lr'] = [{'name': 'web', '$merge': 't.z'}, '$merge:t.x', {'plain': 1}]
         labels.add('feat:list-of-references-in-target')
@@ -302,6 +302,8 @@ def evaldoc(rng, idx, ndocs, labels, nfeat=None):
             d['h14'] = {'$merge': {'$match': {'name': other}, '$path': 't'}, 'z': {'mine': 1}, 'lr': [{'name': 'sidecar'}]}
         elif f == 'cross-list-merge' and other:
             d['h15'] = [{'$merge': [{'name': other}, 't', 'lr']}, {'name': 'own'}] if rng.random() < 0.5 else [{'$merge': [{'name': other}, 't', 'y']}, 9]
+        elif f == 'cross-list-replace' and other:
+            d['h16'] = [{'$replace': rng.choice([{'$match': {'name': other}, '$path': 't.lr'}, [{'name': other}, 't', 'lr'], [{'name': other}, 't', 'y']])}]
         elif f == 'interp':
             d['i1'] = '$"v={t.x}-{name}"'
         elif f == 'env':
